@@ -45,7 +45,8 @@ C01Sym(n, b, p) ==
     Tri(/\ Sequential(n) /\ WellFormed(n, TRUE) /\ b.res.ok
         /\ ~IsOOM(mb) /\ mb.ok
         /\ LET mp == ParseCall(n, mb.s.data, 0, b.kw) IN ~IsOOM(mp) /\ mp.ok /\ PyEq(mp.v, mb.v),
-        p.res.ok /\ ValEq(p.res.v, RetOf(b)))
+        \* the value built, with the derived members filled in as the specification fills them
+        p.res.ok /\ ValEq(p.res.v, mb.v))
 
 \* C02  build after parse is idempotent and canonical.   cs = <<parse b, build, parse, build>>
 \* Premise: the model itself normalises this input (MC_C02 shows that it does so on the explicit
